@@ -45,7 +45,28 @@ def natural_matrix(ctx):
                          terminal_psi=v, need_retries=3))
     runs.append(dict(label="barhole/psi=0.5+0.2j/adaptive-retries", dev="barhole", field=0.8, current=8.0,
                      adaptive=dict(dt_init=0.05, dt_max=0.5, solve_time=1.0), ramp=None, terminal_psi=[0.5, 0.2], need_retries=3))
+    # other initial states: runs seeded from solutions computed with a DIFFERENT terminal value (chain of unobserved
+    # seed runs, the last run is observed); the clause holds from the first update on, for None the seed's values evolve
+    sd = dict(dev="bar", field=0.5, current=2.0, steps=8, ramp=None)
+    for label, chain, v in (("0 -> 0.6+0.2j", [[0.0, 0.0]], [0.6, 0.2]),
+                            ("0 -> 0.6+0.2j -> -0.3", [[0.0, 0.0], [0.6, 0.2]], [-0.3, 0.0]),
+                            ("None -> 1", ["none"], [1.0, 0.0]),
+                            ("1 -> None", [[1.0, 0.0]], "none"),
+                            ("1 -> 0", [[1.0, 0.0]], [0.0, 0.0]),
+                            ("None -> 0", ["none"], [0.0, 0.0]),
+                            ("1 -> 1", [[1.0, 0.0]], [1.0, 0.0])):
+        runs.append(dict(sd, label=f"bar/seeded psi: {label}", seed_chain=chain, terminal_psi=v))
+    runs.append(dict(sd, label="bar/seeded psi: 0 -> 0.6+0.2j/screening", seed_chain=[[0.0, 0.0]], terminal_psi=[0.6, 0.2],
+                     field=0.2, current=0.5, steps=4, screening=True, screening_tol=1e-2))
+    runs.append(dict(label="bar/seeded psi: 0 -> 1/adaptive-retries", dev="bar", field=0.6, current=6.0, adaptive=ad, seed_time=0.2,
+                     ramp=None, seed_chain=[[0.0, 0.0]], terminal_psi=[1.0, 0.0]))
     if not ctx.quick:
+        for dev in ("barhole", "tee"):
+            for label, chain, v in (("0 -> 0.6+0.2j", [[0.0, 0.0]], [0.6, 0.2]), ("0.6+0.2j -> -0.3 -> 1", [[0.6, 0.2], [-0.3, 0.0]], [1.0, 0.0]),
+                                    ("None -> 0.3j", ["none"], [0.0, 0.3]), ("0.5 -> None", [[0.5, 0.0]], "none"),
+                                    ("0.5 -> 0", [[0.5, 0.0]], [0.0, 0.0])):
+                runs.append(dict(label=f"{dev}/seeded psi: {label}", dev=dev, field=0.6, current=(3.0 if dev == "barhole" else 0.0),
+                                 steps=15, ramp=None, seed_chain=chain, terminal_psi=v))
         for name, v in vals + [("-1", [-1.0, 0.0])]:
             runs.append(dict(label=f"bar/psi={name}/adaptive-retries/strong", dev="bar", field=1.0, current=20.0,
                              adaptive=dict(dt_init=0.25, dt_max=2.0, solve_time=3.0), ramp=None, terminal_psi=v, need_retries=3))
@@ -103,20 +124,27 @@ def solver_level(ctx):
                                         f"(needs >= {a['need_retries']}): the retry path is not exercised")
     ctx.cov["retried_steps_observed"] = {a["label"]: [t["info"]["retried_steps"], t["info"]["steps"]]
                                          for a, t in zip(nat, nat_traces) if a.get("adaptive")}
+    if sum(1 for t in nat_traces if t["seed"] == "other" and t["v"] == "nonzero") < 2 or \
+            not any(t["seed"] == "other" and t["v"] == "zero" for t in nat_traces) or \
+            not any(t["info"]["seeded"] and t["v"] == "none" for t in nat_traces):
+        raise core.MachineryFailure("C06: seeded runs whose terminal values differ from the configured one are missing")
     if sum(1 for a in nat if a.get("need_retries")) < 3:
         raise core.MachineryFailure("C06: fewer than 3 adaptive runs with retries completed")
     # ---- 2. solver level: which pin mechanism does the code implement?  (TLC decides)
     if not any(t["v"] == "nonzero" for t in nat_traces):
         raise core.MachineryFailure("C06: no natural run with a nonzero terminal value")
-    cands = {"re-imposed after every accepted Euler step": oc.REPAIRED,
-             "identity row only (pinned code)": dict(oc.REPAIRED, MReimpose=False),
-             "re-imposed only when the step was not retried": dict(oc.REPAIRED, MReimposeOnRetry=False)}
+    cands = {"configured value written after every accepted Euler step": oc.REPAIRED,
+             "configured value written after every accepted Euler step, when it is nonzero": dict(oc.REPAIRED, MReimpose="nonzero"),
+             "identity row only (pinned code)": dict(oc.REPAIRED, MReimpose="never"),
+             "nonzero configured value written only when the step was not retried": dict(oc.REPAIRED, MReimpose="nonzero",
+                                                                                         MReimposeOnRetry=False),
+             "incoming terminal values written back (nonzero configured value)": dict(oc.REPAIRED, MReimpose="incoming_nonzero")}
     full, res = oc.identify_among(ctx, nat_traces, cands, "C06 natural runs")
     if len(full) >= 2:
         raise core.MachineryFailure(f"C06: the natural runs do not discriminate the pin mechanisms {full}")
-    which = full[0] if full else "re-imposed after every accepted Euler step"
+    which = full[0] if full else "configured value written after every accepted Euler step"
     mech = cands[which]
-    reimpose = mech["MReimpose"] and mech["MReimposeOnRetry"]
+    reimpose = mech == oc.REPAIRED
     ctx.cov["mechanism_identified_by_trace_validation"] = {"pin": which if full else None}
     sb = dict(oc.STEP_DEFAULT) if ctx.quick else dict(oc.STEP_DEFAULT, MaxSteps=5, MaxIter=2, AMax=4, IMax=4)
     ctx.cov["bounds"]["OpsCache/SpecStep"] = sb
@@ -135,11 +163,14 @@ def solver_level(ctx):
                                                               ["UnsetMeansFree"], "SpecStep", view="ViewStep"),
                                       name="OpsCache/SpecStep[fix_psi ignored must violate UnsetMeansFree]",
                                       expect_violation="UnsetMeansFree", count=False)]
-    thunks.append(lambda: ctx.model_check(
-        "OpsCache", oc.cfg_text(dict(small, Vs=["nonzero"], Scrs=[False]), dict(oc.REPAIRED, MReimposeOnRetry=False),
-                                ["PinnedSitesStayPinned"], "SpecStep", view="ViewStep"),
-        name="OpsCache/SpecStep[value re-imposed only when the step was not retried must violate PinnedSitesStayPinned]",
-        expect_violation="PinnedSitesStayPinned", count=False))
+    for label, mm, vs in (("value written only when the step was not retried", dict(oc.REPAIRED, MReimposeOnRetry=False), ["nonzero"]),
+                          ("incoming terminal values written back", dict(oc.REPAIRED, MReimpose="incoming_nonzero"), ["nonzero"]),
+                          ("only a nonzero configured value is written (seeded start)", dict(oc.REPAIRED, MReimpose="nonzero"), ["zero"])):
+        thunks.append(lambda label=label, mm=mm, vs=vs: ctx.model_check(
+            "OpsCache", oc.cfg_text(dict(small, Vs=vs, Scrs=[False], Modes=["terminals"]), mm, ["PinnedSitesStayPinned"], "SpecStep",
+                                    view="ViewStep"),
+            name=f"OpsCache/SpecStep[{label}: must violate PinnedSitesStayPinned]",
+            expect_violation="PinnedSitesStayPinned", count=False))
     out = {}
 
     def judge():       # every recorded run, every state (every step, every saved frame): the clauses themselves
@@ -157,7 +188,7 @@ def solver_level(ctx):
             pos, clause = bad[n][0]
             ctx.violation(f"C06:{clause}:natural:{a['label']}",
                           f"C06: real solver run '{a['label']}' ({info['sites']} sites, {info['terminal_sites']} terminal sites, "
-                          f"{info['steps']} steps): {clause} is false in {len(bad[n])} states, first at event {pos}; the order "
+                          f"{info['steps']} steps{', seeded' if info['seeded'] else ''}): {clause} is false in {len(bad[n])} states, first at event {pos}; the order "
                           f"parameter on the terminal sites leaves the configured value {a['terminal_psi']}: max deviation after an "
                           f"update {info['max_terminal_deviation_after_update']:.3g} (in the saved frames "
                           f"{info['max_terminal_deviation_in_frames']:.3g}; {info['retried_steps']} retried steps)",
